@@ -152,6 +152,8 @@ type handlerOpt struct {
 	strictLabel bool
 	// emptyNotNil: "no KEK for this label" is answered with an empty non-nil slice instead of nil
 	emptyNotNil bool
+	// bareKeys: the device-keys callback returns keys and join-nonce and leaves DeviceKeys.DevEUI zero
+	bareKeys bool
 }
 
 func newHandlerOpt(w *world, opt handlerOpt) http.Handler {
@@ -175,7 +177,11 @@ func newHandlerOpt(w *world, opt handlerOpt) http.Handler {
 			if !ok {
 				return joinserver.DeviceKeys{}, joinserver.ErrDevEUINotFound
 			}
-			dk := joinserver.DeviceKeys{DevEUI: e, JoinNonce: int(d.JoinNonce)}
+			// the callback is asked for keys and nonce; whether it also copies the DevEUI into the struct is up to it
+			dk := joinserver.DeviceKeys{JoinNonce: int(d.JoinNonce)}
+			if !opt.bareKeys {
+				dk.DevEUI = e
+			}
 			copy(dk.NwkKey[:], d.NwkKey)
 			copy(dk.AppKey[:], d.AppKey)
 			return dk, nil
@@ -650,7 +656,7 @@ func checkOne(c oneCase) evid.Outcome {
 	}
 	// the handler configuration varies with the transaction id: optional callbacks omitted where their documented
 	// default answers the same; a label lookup that fails for devices it does not know
-	opt := handlerOpt{omitOptional: c.Req.TxID&1 == 1, homeUnused: c.Req.Flow != flowHomeNS, strictLabel: c.Req.TxID&2 == 2, emptyNotNil: c.Req.TxID&4 == 4}
+	opt := handlerOpt{omitOptional: c.Req.TxID&1 == 1, homeUnused: c.Req.Flow != flowHomeNS, strictLabel: c.Req.TxID&2 == 2, emptyNotNil: c.Req.TxID&4 == 4, bareKeys: c.Req.TxID&8 == 8}
 	h := newHandlerOpt(&c.world, opt)
 	d := c.dev(&c.Req)
 	var status int
@@ -1003,7 +1009,7 @@ const ruleRequests = "rapid: one provisioned device (uniform 16-byte NwkKey/AppK
 	"DevNonce/RJCount), echoes JoinNonce, NetID = SenderID, DevAddr, DLSettings, RxDelay, CFList bytes; envelopes: clear 16-byte key when no KEK is configured for " +
 	"the label (NS label = SenderID, AS label per device), else KEKLabel = label and reference RFC 3394 unwrap; keys = reference SessionKeys10 (OptNeg clear) / " +
 	"SessionKeys11 (OptNeg set); for rejoin exactly two key sets are accepted: the 1.1 derivation, or the documented 1.0-style one (known finding K4); flipped bit / " +
-	"wrong key => MICFailed, unknown DevEUI => UnknownDevEUI, both without join-accept or keys; HomeNSReq => configured home NetID. Handler configuration varied with the transaction id: optional callbacks left nil where the documented default answers the same, an AS-KEK-label lookup that answers an error instead of no label for a DevEUI it has no record of, a KEK lookup that answers nil or an empty slice for a label without KEK. Histories: the same request " +
+	"wrong key => MICFailed, unknown DevEUI => UnknownDevEUI, both without join-accept or keys; HomeNSReq => configured home NetID. Handler configuration varied with the transaction id: optional callbacks left nil where the documented default answers the same, an AS-KEK-label lookup that answers an error instead of no label for a DevEUI it has no record of, a KEK lookup that answers nil or an empty slice for a label without KEK, a device-keys lookup that fills in or leaves out the DevEUI member of its answer. Histories: the same request " +
 	"served a second time gets the same answer; in half of the cases the device is then provisioned again under the same DevEUI with other root keys on a second " +
 	"handler, sends the request under its new keys and is judged by the same oracle. Non-trivial: OptNeg set, or a KEK " +
 	"configured, or a rejoin, or a negative case."
